@@ -23,6 +23,7 @@ type Entry struct {
 	Mode     os.FileMode `json:"mode,omitempty"`
 	MTime    time.Time   `json:"mtime,omitempty"`
 	HasInfo  bool        `json:"has_info,omitempty"` // a file_info block is present
+	Expand   bool        `json:"expand,omitempty"`   // expand: true (src/dst carry no references here, so nothing else changes)
 }
 
 // PEntry is one planned payload entry.
